@@ -174,7 +174,17 @@ pub(super) fn generate_parser_actions(generator: &ParserGenerator) -> Result<()>
             if !type_names.contains(&nonterminal.name) {
                 log!("Creating types for non-terminal '{}'.", nonterminal.name);
                 for ty in actions_generator.nonterminal_types(nonterminal, generator.settings) {
-                    ast.items.push(ty);
+                    // A rule may produce several types. Do not duplicate
+                    // those which are still in the file.
+                    let exists = match &ty {
+                        syn::Item::Enum(e) => type_names.contains(&e.ident.to_string()),
+                        syn::Item::Struct(s) => type_names.contains(&s.ident.to_string()),
+                        syn::Item::Type(t) => type_names.contains(&t.ident.to_string()),
+                        _ => false,
+                    };
+                    if !exists {
+                        ast.items.push(ty);
+                    }
                 }
             }
 
